@@ -166,9 +166,11 @@ func (u *Upstream) closeWithError(ctx context.Context, causeError error, opts ..
 		},
 	})
 	if err != nil {
+		u.notifyClosedWithError(causeError)
 		return err
 	}
 	if resp.ResultCode != message.ResultCodeSucceeded {
+		u.notifyClosedWithError(causeError)
 		return errors.FailedMessageError{
 			ResultCode:      resp.ResultCode,
 			ResultString:    resp.ResultString,
@@ -185,6 +187,21 @@ func (u *Upstream) closeWithError(ctx context.Context, causeError error, opts ..
 		})
 	}()
 	return nil
+}
+
+// notifyClosedWithError reports a stream that is closed because of causeError (e.g. a failed resume)
+// even when the close request itself could not be completed, so that the stream is never lost silently.
+func (u *Upstream) notifyClosedWithError(causeError error) {
+	if causeError == nil {
+		return
+	}
+	u.eventDispatcher.addHandler(func() {
+		u.Config.ClosedEventHandler.OnUpstreamClosed(&UpstreamClosedEvent{
+			Config: u.Config,
+			State:  *u.State(),
+			Err:    causeError,
+		})
+	})
 }
 
 func (u *Upstream) waitToSendAllDataPointsAndReceiveAllAck(ctx context.Context) error {
